@@ -28,6 +28,9 @@ warnings.filterwarnings('ignore')   # numpy overflow warnings raised while inter
 def run_property(pid: str, tier: str, root: str, out_dir=None, overlay=None, quiet=False, base=None):
     t0 = time.time()
     repo = core.Repo(root, overlay=overlay, base=base)
+    from sa import fdx as _fdx
+    _fdx.DEFAULT_REPO = repo
+    _fdx._OWNERS.clear()
     mod = importlib.import_module(f'sa.props.{pid.lower()}')
     ctx = report.Ctx(pid, tier, repo)
     mod.run(ctx)
